@@ -1,15 +1,19 @@
 package main
 
 import (
+	"os"
 	. "verifharness/lib"
 	"verifharness/nfsx"
+	"verifharness/specfs"
 )
 
 // SRV: general request histories; the full-fidelity stream used to validate Model/Srv.v as a whole.
 func init() {
 	Props["SRV"] = &Prop{
-		Imports:    "From Verif Require Import Model.Handles Model.Backend Model.Srv Corr.SrvCase Corr.SRV.",
-		Gen:        func(r *Rand, idx int, tier string) Case { return genHistory(r, idx, histOpts{}) },
+		Imports: "From Verif Require Import Model.Handles Model.Backend Model.Srv Corr.SrvCase Corr.SRV.",
+		Gen: func(r *Rand, idx int, tier string) Case {
+			return genHistory(r, idx, histOpts{adminPct: 3, populate: popTree(r)})
+		},
 		NonTrivial: func(c *Case) bool { return c.Tags["backend-mutations"] > 0 },
 		ShardSize:  25,
 	}
@@ -21,6 +25,8 @@ type histOpts struct {
 	ro         bool
 	maxFile    int64
 	steps      int
+	populate   func(fs *specfs.FS)
+	adminPct   int
 }
 
 var defaultWeights = map[string]int{"LOOKUP": 14, "CREATE": 10, "MKDIR": 8, "SYMLINK": 5, "REMOVE": 6, "RMDIR": 4, "RENAME": 6,
@@ -107,7 +113,7 @@ func genReq(r *Rand, s *Session, proc string, oddPct int) *nfsx.Req {
 func genHistory(r *Rand, idx int, o histOpts) Case {
 	cfg := genCfg(r)
 	cfg.RO, cfg.MaxFile = o.ro, o.maxFile
-	s := NewSession(cfg)
+	s := NewSession(cfg, o.populate)
 	root := nfsx.Cred{}
 	s.Do(0, root, &nfsx.Req{Proc: "MNT", Name: []byte("/")})
 	w := o.weights
@@ -123,8 +129,61 @@ func genHistory(r *Rand, idx int, o histOpts) Case {
 		odd = 6
 	}
 	for i := 0; i < n; i++ {
+		if o.adminPct > 0 && r.Chance(o.adminPct) {
+			switch r.Intn(3) {
+			case 0:
+				s.Do(0, root, &nfsx.Req{Proc: "SETRO", Cnt: uint32(r.Intn(2))})
+			case 1:
+				s.Do(0, root, &nfsx.Req{Proc: "SETMAXFILE", Off: PickU64(r, 0, 5, 10, 100)})
+			case 2:
+				s.Do(0, root, &nfsx.Req{Proc: "SETTSIZE", Cnt: uint32(PickInt(r, 1, 7, 16, 64, 65536))})
+			}
+			continue
+		}
 		proc := pickProc(r, w)
 		s.Do(pickAdv(r), pickCred(r), genReq(r, s, proc, odd))
 	}
 	return s.Case("history", idx)
 }
+
+// popTree returns a populate function building a small tree with files (with data), directories,
+// symlinks to files/directories and dangling symlinks; nil half of the time (empty export).
+func popTree(r *Rand) func(fs *specfs.FS) {
+	if r.Bool() {
+		return nil
+	}
+	seed := r.U64()
+	return func(fs *specfs.FS) {
+		rr := NewRand(seed, 0)
+		fs.Mkdir("/a", 0755)
+		fs.Mkdir("/a/b", 0700)
+		wr := func(p string, data string, perm uint32) {
+			f, err := fs.Create(p)
+			if err != nil {
+				return
+			}
+			f.WriteAt([]byte(data), 0)
+			f.Sync()
+			f.Close()
+			fs.Chmod(p, 0)
+			fs.Chmod(p, osMode(perm))
+		}
+		wr("/c", "hello world", 0644)
+		wr("/a/d", "0123456789abcdefghij", 0600)
+		if rr.Bool() {
+			wr("/a/b/ee", "x", 0444)
+		}
+		fs.Symlink("c", "/d")
+		if rr.Bool() {
+			fs.Symlink("a", "/ee")
+		}
+		if rr.Bool() {
+			fs.Symlink("nothere", "/a/c")
+		}
+		if rr.Bool() {
+			fs.Chown("/c", 1000, 100)
+		}
+	}
+}
+
+func osMode(p uint32) os.FileMode { return os.FileMode(p) }
